@@ -1017,7 +1017,10 @@ class Inliner:
                 _extend_as_loop(fd)
                 _get_or_create(fd)
                 _filter_then_loop(fd)
+                _fallback_split(fd, self.log)
+                _guard_return(fd, self.log)
                 _hoisted_locals(fd, self.log)
+                _single_use_temp(fd, self.log)
             F().visit(tree)
             _drop_pass(tree)
 
@@ -1284,12 +1287,19 @@ def _filter_then_loop(fd):
             if isinstance(st, ast.Assign) and len(st.targets) == 1 and isinstance(st.targets[0], ast.Name) and isinstance(st.value, ast.ListComp) and \
                     len(st.value.generators) == 1 and isinstance(st.value.generators[0].target, ast.Name) and isinstance(st.value.elt, ast.Name) and \
                     st.value.elt.id == st.value.generators[0].target.id and st.value.generators[0].ifs and \
-                    isinstance(nxt, ast.For) and not nxt.orelse and isinstance(nxt.iter, ast.Name) and nxt.iter.id == st.targets[0].id and isinstance(nxt.target, ast.Name):
+                    isinstance(nxt, ast.For) and not nxt.orelse and isinstance(nxt.target, ast.Name) and (
+                        (isinstance(nxt.iter, ast.Name) and nxt.iter.id == st.targets[0].id) or
+                        # the filtered list wrapped in an order-only call: filtering commutes with sorting / reversing
+                        (isinstance(nxt.iter, ast.Call) and isinstance(nxt.iter.func, ast.Name) and nxt.iter.func.id in ('sorted', 'reversed', 'list', 'tuple') and
+                         len(nxt.iter.args) == 1 and isinstance(nxt.iter.args[0], ast.Name) and nxt.iter.args[0].id == st.targets[0].id and
+                         all(k.arg == 'reverse' and isinstance(k.value, ast.Constant) for k in nxt.iter.keywords))):
                 Lname = st.targets[0].id
                 g = st.value.generators[0]
                 uses = [n for n in _walk_no_defs(fd.body) if isinstance(n, ast.Name) and n.id == Lname]
+                wrapped = isinstance(nxt.iter, ast.Call)
                 it_ok = isinstance(g.iter, ast.Name) or (isinstance(g.iter, ast.Call) and isinstance(g.iter.func, ast.Name) and
-                                                           g.iter.func.id in ('sorted', 'list', 'tuple', 'reversed', 'range'))
+                                                           g.iter.func.id in ('sorted', 'list', 'tuple', 'reversed', 'range')) or \
+                    (wrapped and nxt.iter.func.id in ('sorted', 'list', 'tuple') and isinstance(g.iter, (ast.Name, ast.Attribute)))
                 bound = set(_stores(nxt.body))
                 reads = {n.id for c in g.ifs for n in ast.walk(c) if isinstance(n, ast.Name)}
                 jumps_else = False
@@ -1297,7 +1307,10 @@ def _filter_then_loop(fd):
                     conds = [_Subst({g.target.id: ast.Name(id=nxt.target.id, ctx=ast.Load())}).visit(astcopy(c)) for c in g.ifs]
                     test = conds[0] if len(conds) == 1 else ast.BoolOp(op=ast.And(), values=conds)
                     inner = ast.copy_location(ast.If(test=test, body=nxt.body, orelse=[]), nxt)
-                    loop = ast.copy_location(ast.For(target=nxt.target, iter=g.iter, body=[inner], orelse=[], type_comment=None), nxt)
+                    new_iter = g.iter
+                    if wrapped:
+                        new_iter = ast.copy_location(ast.Call(func=nxt.iter.func, args=[g.iter], keywords=nxt.iter.keywords), nxt.iter)
+                    loop = ast.copy_location(ast.For(target=nxt.target, iter=new_iter, body=[inner], orelse=[], type_comment=None), nxt)
                     ast.fix_missing_locations(loop)
                     stmts[i:i + 2] = [loop]
                     continue
@@ -1393,6 +1406,161 @@ def _extend_as_loop(fd):
                 if not clash:
                     stmts[i] = new
     rewrite(fd.body)
+
+
+def _single_use_temp(fd, log=None):
+    """`x = <call>` immediately followed by a simple statement that reads x exactly once -- x bound and read nowhere else, the read not
+    inside a lambda / comprehension element / loop, and nothing with an effect evaluated before it in that statement: the call written
+    where x is read (`t = self.f(i); return sep.join(g(s) for s in t)` reads like `return sep.join(g(s) for s in self.f(i))`)."""
+    def rewrite(stmts):
+        i = 0
+        while i + 1 < len(stmts):
+            st, nxt = stmts[i], stmts[i + 1]
+            ok = isinstance(st, ast.Assign) and len(st.targets) == 1 and isinstance(st.targets[0], ast.Name) and isinstance(st.value, ast.Call) and \
+                isinstance(nxt, (ast.Return, ast.Expr)) and nxt.value is not None
+            if ok:
+                x = st.targets[0].id
+                occ = [n for n in _walk_no_defs(fd.body) if isinstance(n, ast.Name) and n.id == x]
+                uses = [n for n in ast.walk(nxt) if isinstance(n, ast.Name) and n.id == x and isinstance(n.ctx, ast.Load)]
+                if len(occ) == 2 and len(uses) == 1 and x not in {a.arg for a in fd.args.args + fd.args.kwonlyargs}:
+                    use = uses[0]
+                    # ancestors of the use inside nxt
+                    parent = {}
+                    for p_ in ast.walk(nxt):
+                        for c_ in ast.iter_child_nodes(p_):
+                            parent[id(c_)] = p_
+                    anc, cur = set(), use
+                    bad = False
+                    while id(cur) in parent:
+                        par = parent[id(cur)]
+                        anc.add(id(par))
+                        if isinstance(par, (ast.Lambda, ast.IfExp, ast.BoolOp)):
+                            bad = True
+                        if isinstance(par, (ast.ListComp, ast.SetComp, ast.GeneratorExp, ast.DictComp)):
+                            # only the first iterable of a comprehension is evaluated exactly once
+                            if not (par.generators and cur is par.generators[0]):
+                                bad = True
+                        if isinstance(par, ast.comprehension) and cur is not par.iter:
+                            bad = True
+                        cur = par
+                    # what an enclosing comprehension evaluates after its first iterable (element, conditions, further generators) comes later
+                    later = set()
+                    for p_ in ast.walk(nxt):
+                        if id(p_) in anc and isinstance(p_, (ast.ListComp, ast.SetComp, ast.GeneratorExp, ast.DictComp)):
+                            parts_ = ([p_.key, p_.value] if isinstance(p_, ast.DictComp) else [p_.elt]) + list(p_.generators[0].ifs) + [p_.generators[0].target] + \
+                                list(p_.generators[1:])
+                            for q_ in parts_:
+                                later |= {id(z_) for z_ in ast.walk(q_)}
+                    before = [n for n in ast.walk(nxt) if isinstance(n, (ast.Call, ast.Await, ast.Yield, ast.YieldFrom, ast.NamedExpr)) and id(n) not in anc and
+                              id(n) not in later and hasattr(n, 'lineno') and (n.lineno, n.col_offset) < (use.lineno, use.col_offset)]
+                    if not bad and not before:
+                        stmts[i + 1] = _Subst({x: st.value}).visit(nxt)
+                        del stmts[i]
+                        if log is not None:
+                            log.append('# temporary %s of %s written where it is read' % (x, fd.name))
+                        continue
+            for fld in ('body', 'orelse', 'finalbody'):
+                L = getattr(st, fld, None)
+                if isinstance(L, list) and L and isinstance(L[0], ast.stmt) and not isinstance(st, (ast.FunctionDef, ast.ClassDef)):
+                    rewrite(L)
+            i += 1
+        if stmts:
+            st = stmts[-1]
+            for fld in ('body', 'orelse', 'finalbody'):
+                L = getattr(st, fld, None)
+                if isinstance(L, list) and L and isinstance(L[0], ast.stmt) and not isinstance(st, (ast.FunctionDef, ast.ClassDef)):
+                    rewrite(L)
+    rewrite(fd.body)
+
+
+def _guard_return(fd, log=None):
+    """`if C: return v` ... `return v` at the top level of a function (v a plain name that the statements in between do not re-bind):
+    the statements in between under `if not C:`, followed by the one `return v` -- the nested form the repository uses for
+    "nothing to do" cases."""
+    from .model import negate
+    body = fd.body
+    if len(body) < 3 or not (isinstance(body[-1], ast.Return) and isinstance(body[-1].value, ast.Name)):
+        return
+    v = body[-1].value.id
+    for i in range(len(body) - 2, -1, -1):
+        st = body[i]
+        if isinstance(st, ast.If) and not st.orelse and len(st.body) == 1 and isinstance(st.body[0], ast.Return) and isinstance(st.body[0].value, ast.Name) and \
+                st.body[0].value.id == v:
+            mid = body[i + 1:-1]
+            if not mid or v in _stores(mid):
+                continue
+            if any(isinstance(n, (ast.Return, ast.For, ast.While)) for n in _walk_no_defs(mid)):
+                continue        # (a guard in front of a scan loop is left as it is: the scan rules read the function top-down)
+            new = ast.copy_location(ast.If(test=negate(st.test), body=mid, orelse=[]), st)
+            ast.fix_missing_locations(new)
+            body[i:-1] = [new]
+            if log is not None:
+                log.append('# guard `if %s: return %s` of %s written as the nested form' % (ast.unparse(st.test), v, fd.name))
+    fd.body = body
+
+
+def _fallback_split(fd, log=None):
+    """`m = E1; [v = C]; if not m: m = E2; [v = D]` followed by `if m: BODY` where BODY always returns or raises: the common handling of
+    a first attempt and its fallback.  Written as the two attempts one after the other, each with its own copy of BODY (in which a
+    selector v bound to a plain name / attribute is replaced by what it stands for): the layout of the repository's copy-pasted blocks."""
+    def plain(e):
+        return isinstance(e, (ast.Name, ast.Constant)) or (isinstance(e, ast.Attribute) and plain(e.value))
+
+    def rewrite(stmts):
+        i = 0
+        while i + 1 < len(stmts):
+            F, G = stmts[i], stmts[i + 1]
+            if isinstance(F, ast.If) and not F.orelse and isinstance(F.test, ast.UnaryOp) and isinstance(F.test.op, ast.Not) and isinstance(F.test.operand, ast.Name) and \
+                    isinstance(G, ast.If) and not G.orelse and isinstance(G.test, ast.Name) and G.test.id == F.test.operand.id and _all_paths_end_list(G.body):
+                mname = G.test.id
+                # the first attempt: the nearest preceding assignment to m in this list, with only simple selector assignments in between
+                j = i - 1
+                sel1 = {}
+                while j >= 0 and isinstance(stmts[j], ast.Assign) and len(stmts[j].targets) == 1 and isinstance(stmts[j].targets[0], ast.Name) and \
+                        stmts[j].targets[0].id != mname and plain(stmts[j].value):
+                    sel1.setdefault(stmts[j].targets[0].id, stmts[j].value)
+                    j -= 1
+                first = stmts[j] if j >= 0 else None
+                if isinstance(first, ast.Assign) and len(first.targets) == 1 and isinstance(first.targets[0], ast.Name) and first.targets[0].id == mname and \
+                        any(isinstance(b, ast.Assign) and len(b.targets) == 1 and isinstance(b.targets[0], ast.Name) and b.targets[0].id == mname for b in F.body):
+                    sel2 = {}
+                    for b in F.body:
+                        if isinstance(b, ast.Assign) and len(b.targets) == 1 and isinstance(b.targets[0], ast.Name) and b.targets[0].id != mname and plain(b.value):
+                            sel2[b.targets[0].id] = b.value
+                    bound = set(_stores(G.body))
+                    s1 = {k: v for k, v in sel1.items() if k not in bound and k in sel2}
+                    s2 = {k: v for k, v in sel2.items() if k in s1}
+                    g1 = ast.copy_location(ast.If(test=G.test, body=[_Subst(s1).visit(astcopy(b)) for b in G.body], orelse=[]), G)
+                    g2 = ast.copy_location(ast.If(test=astcopy(G.test), body=[_Subst(s2).visit(astcopy(b)) for b in G.body], orelse=[]), G)
+                    ast.fix_missing_locations(g1)
+                    ast.fix_missing_locations(g2)
+                    stmts[i:i + 2] = [g1] + list(F.body) + [g2]
+                    # a selector that is read nowhere any more: its bindings go
+                    for k in s1:
+                        if not any(isinstance(n, ast.Name) and n.id == k and isinstance(n.ctx, ast.Load) for n in ast.walk(fd)):
+                            stmts[:] = [x for x in stmts if not (isinstance(x, ast.Assign) and len(x.targets) == 1 and isinstance(x.targets[0], ast.Name) and
+                                                                 x.targets[0].id == k and plain(x.value))]
+                    if log is not None:
+                        log.append('# first attempt / fallback on %s in %s written as two blocks' % (mname, fd.name))
+                    i = 0
+                    continue
+            for fld in ('body', 'orelse', 'finalbody'):
+                L = getattr(F, fld, None)
+                if isinstance(L, list) and L and isinstance(L[0], ast.stmt) and not isinstance(F, (ast.FunctionDef, ast.ClassDef)):
+                    rewrite(L)
+            i += 1
+    rewrite(fd.body)
+
+
+def _all_paths_end_list(stmts):
+    if not stmts:
+        return False
+    last = stmts[-1]
+    if isinstance(last, (ast.Return, ast.Raise)):
+        return True
+    if isinstance(last, ast.If) and last.orelse:
+        return _all_paths_end_list(last.body) and _all_paths_end_list(last.orelse)
+    return False
 
 
 def _method_choice(fd):
